@@ -47,6 +47,10 @@ pub enum Op {
     MulConstC(C32),
     /// Tee, two rate-preserving branches, merged by Xor (bits/bytes) or Add (f32) or FloatToComplex.
     Diamond(Vec<Op>, Vec<Op>, u8),
+    /// Add a second, independent finite source of the given length: the merge
+    /// ends with the shorter side and the longer side's producer has to notice
+    /// (under MTGraph it may be parked on a full stream at that moment).
+    AddSecond(usize, u64),
 }
 
 impl Op {
@@ -56,6 +60,7 @@ impl Op {
             Op::FftFiltF(t) => format!("FftFiltF({})", t.len()),
             Op::FftFiltC(t) => format!("FftFiltC({})", t.len()),
             Op::CacTag(c) => format!("CacTag({})", c.len()),
+            Op::AddSecond(n, _) => format!("AddSecondSource({n})"),
             Op::Diamond(a, b, m) => format!(
                 "Diamond[{}|{}]{}",
                 a.iter().map(|o| o.name()).collect::<Vec<_>>().join(">"),
@@ -93,6 +98,7 @@ impl Program {
             ops.iter()
                 .map(|o| match o {
                     Op::Diamond(a, b, _) => 2 + cnt(a) + cnt(b),
+                    Op::AddSecond(..) => 2,
                     _ => 1,
                 })
                 .sum()
@@ -514,6 +520,14 @@ fn apply(b: &mut B, w: Wire, op: &Op) -> Wire {
                 _ => panic!("harness: diamond branch changed type"),
             }
         }
+        (Wire::F32(r), Op::AddSecond(n, seed)) => {
+            let v = gen_f32(&mut Rng::new(*seed), *n);
+            let (s2, o2) = VectorSourceBuilder::new(v).build();
+            b.add(s2);
+            let (m, o) = Add::new(r, o2);
+            b.add(m);
+            Wire::F32(o)
+        }
         (w, op) => panic!("harness: op {op:?} not applicable to {:?}", w.ty()),
     }
 }
@@ -758,7 +772,7 @@ pub fn gen_program(rng: &mut Rng, max_ops: usize, allow_fftfloat: bool) -> Progr
                 8 => Op::Skip(rng.range(0, 70)),
                 9 => Op::Resample(rng.range(1, 4), rng.range(1, 4)),
                 10 => Op::Diamond(gen_branch(rng, ty, ccap), gen_branch(rng, ty, ccap), rng.below(2) as u8),
-                _ => Op::AddConstF(1.0),
+                _ => Op::AddSecond(if rng.chance(1, 2) { rng.range(0, 3 * ccap) } else { rng.range(0, 200) }, rng.next()),
             },
             Ty::C32 => match rng.below(5) {
                 0 => Op::Mag2,
